@@ -1,10 +1,12 @@
 /-
 C07 — property theorems. Explicit-bucket histogram first, then the base-2 exponential histogram.
-Helper lemmas are in Lemmas.lean, LemmasPlace.lean (run-level placement invariant) and LemmasIdx.lean (exact index).
+Helper lemmas are in Lemmas.lean, LemmasPlace.lean (run-level placement invariant), LemmasIdx.lean (exact index)
+and LemmasDrop.lean (window ends non-zero, the scale-underflow return).
 -/
 import Otel.C07.Lemmas
 import Otel.C07.LemmasPlace
 import Otel.C07.LemmasIdx
+import Otel.C07.LemmasDrop
 namespace Otel.C07
 open Spec
 
@@ -299,6 +301,47 @@ theorem expo_size_bound_needs_coherence :
 example : (run (fun _ v => v.ex) 1 20 [some ⟨false, 3, 1000000000⟩, some ⟨false, 3, -1000000000⟩]).1.count = 1 ∧
     (run (fun _ v => v.ex) 1 20 [some ⟨false, 3, 1000000000⟩, some ⟨false, 3, -1000000000⟩]).2.getLast? =
       some (Out.val false 20 (-1000000000) 20 (-1000000000) false) := by decide
+
+/-! ### values are left out only on scale underflow -/
+
+/-- "re-scaling without losing … counts", the remaining case: a measurement is left out (counted nowhere) only
+on the scale-underflow return, and then rightly so. For every run — every index function `L` (no coherence
+needed: on this return `L` is consulted at the current scale only), every `maxSize`, every `maxScale` (no bound
+needed: `scaleChange` returns at most 31, so it exceeds `scale + 10` only when `scale + 10 ≤ 30`, and then its
+loop condition was evaluated — and true — after exactly `scale + 10` halvings; the `count > 30` escape is never
+what decides a drop) and every measurement sequence — the oracle predicate `dropsOK` holds of the log: whenever a
+value is left out, values of its sign have been recorded before (the first value of a sign is never left out),
+and the indices of those values (as recorded, shifted to the current scale) together with the index of the new
+value still span at least `maxSize` buckets after being shifted to scale −10, i.e. no scale ≥ −10 can hold
+them in `maxSize` buckets. Proof: invariant `DInv` (LemmasDrop.lean) = placement invariant + "the first and the
+last bucket of a non-empty window are non-zero" (so the window the code looks at is the span of the recorded
+indices) + `scaleLoop_gt`. -/
+theorem expo_drops_only_on_underflow (L : Int → Val → Int) (maxSize : Nat) (maxScale : Int)
+    (vs : List (Option Val)) : dropsOK maxSize [] (run L maxSize maxScale vs).2 = true :=
+  (run_DInv L maxSize maxScale vs).drops
+
+/-- the auxiliary invariant, a fact about the data point in its own right: the bucket window of each sign is
+tight — a non-empty window begins and ends with a non-zero bucket (`expoBuckets.record` grows the window only up
+to the new index, `downscale` merges the ends into the new ends) -/
+theorem expo_window_tight (L : Int → Val → Int) (maxSize : Nat) (maxScale : Int) (vs : List (Option Val))
+    (neg : Bool) (hne : ((run L maxSize maxScale vs).1.bucketOf neg).counts.length ≠ 0) :
+    0 < Buckets.get ((run L maxSize maxScale vs).1.bucketOf neg) ((run L maxSize maxScale vs).1.bucketOf neg).start ∧
+    0 < Buckets.get ((run L maxSize maxScale vs).1.bucketOf neg)
+      (((run L maxSize maxScale vs).1.bucketOf neg).start +
+        (((run L maxSize maxScale vs).1.bucketOf neg).counts.length : Int) - 1) :=
+  (run_DInv L maxSize maxScale vs).ends neg hne
+
+/-- `expo_drops_only_on_underflow` on runs that do leave a value out (maxSize 1 resp. 2, an index function that is
+not even coherent; in the second run the window [0, 1] and the index 5000 still span 2 ≥ 2 buckets after the 11
+halvings from scale 1 to scale −10), and the oracle is not trivially true: it rejects a log in which the first
+value of a sign, or a value that would have fitted at scale −10, is left out -/
+example : dropsOK 1 [] (run (fun _ v => v.ex) 1 20 [some ⟨false, 3, 1000000000⟩, some ⟨false, 3, -1000000000⟩]).2 = true ∧
+    (run (fun _ v => v.ex) 2 1 [some ⟨false, 3, 0⟩, some ⟨false, 3, 1⟩, some ⟨false, 3, 5000⟩]).2 =
+      [.val false 1 0 1 0 true, .val false 1 1 1 1 true, .val false 1 5000 1 5000 false] ∧
+    dropsOK 2 [] [.val false 1 0 1 0 true, .val false 1 1 1 1 true, .val false 1 5000 1 5000 false] = true ∧
+    dropsOK 2 [] [.val false 1 5000 1 5000 false] = false ∧
+    dropsOK 2 [] [.val false 1 0 1 0 true, .val false 1 1 1 1 true, .val false 1 1500 1 1500 false] = false := by
+  decide
 
 /-! ## parameter validation -/
 
